@@ -4,7 +4,7 @@ import gen_http as G
 
 HARNESS = "rx_driver"
 LEAN_MODULES = ["ViaProofs.C06"]
-REQUIRED_THEOREMS = []
+REQUIRED_THEOREMS = ["Via.C06"]
 LEVEL = "proof"
 RULE = ("adversarial endless streams (empty-name lines, repeated-name lines, distinct-name lines, folded lines, whitespace runs, "
         "endless method / target, huge Content-Length, endless chunk sequences, endless chunk extensions, endless trailers) fed "
